@@ -63,10 +63,13 @@ package forwarder
 //@ macro fwdAttr(p) = p.Forwarding.Attributes.cachedValue
 //@ func (f *Forwarder) HandlePacket(ctx, packet) (err)
 //@   requires[inv] f != nil && f.router != nil && f.bankKeeper != nil
-//@   modifies bank, events, fwdcalls
+//@   modifies bank, events, fwdcalls, fwd_ctrl, out_n, out_kind, out_cctp, out_cctpc, out_hyp, out_send
+//@   ensures[C05] fwdcalls <= old(fwdcalls) + 1
+//@   ensures[C05] fwdcalls > old(fwdcalls) ==> packet != nil && packet.Forwarding != nil && mapHas(f.router.routes, packet.Forwarding.ProtocolId) && fwd_ctrl == mapGet(f.router.routes, packet.Forwarding.ProtocolId)
+//@   ensures[C05] packet != nil && packet.Forwarding != nil && !mapHas(f.router.routes, packet.Forwarding.ProtocolId) ==> err != nil && fwdcalls == old(fwdcalls)
 //@   ensures[C08] packet != nil && packet.Forwarding != nil && packet.Forwarding.Attributes != nil && ref(fwdAttr(packet)) != 0 &&
 //@                (protoPaused(f, packet.Forwarding.ProtocolId) || ccPaused(f, packet.Forwarding.ProtocolId, cpOfIface(fwdAttr(packet)))) ==>
-//@                  err != nil && fwdcalls == old(fwdcalls) && bank == old(bank) && events == old(events)
+//@                  err != nil && fwdcalls == old(fwdcalls) && bank == old(bank) && events == old(events) && out_n == old(out_n)
 
 // Batches. At the level of the function a batch that fails half-way has applied a prefix; that the
 // whole message is then rolled back is the SDK's per-message cache (not provable here). What is
@@ -139,3 +142,19 @@ package forwarder
 //@ func (s queryServer) IsCrossChainPaused(ctx, req) (resp, err)
 //@   requires[base] s.Forwarder != nil
 //@   ensures[C08] err == nil ==> resp != nil && exists p int :: resp.IsPaused == ccPaused(s.Forwarder, p, req.CounterpartyId)
+
+// ---------------------------------------------------------------------------------------------
+// Deposit replacement reaches CCTP with exactly the message's fields and the orbiter as owner (C05)
+// ---------------------------------------------------------------------------------------------
+
+//@ macro cctpRoute(f) = mapGet(f.router.routes, core.PROTOCOL_CCTP)
+//@ func (s msgServer) ReplaceDepositForBurn(ctx, msg) (resp, err)
+//@   requires[base] msg != nil && s.Forwarder != nil && s.Authorizer != nil
+//@   requires[inv]  s.Forwarder.router != nil
+//@   requires[inv]  mapHas(s.Forwarder.router.routes, core.PROTOCOL_CCTP) && istype(cctpRoute(s.Forwarder), "*controller/forwarding.CCTPController") ==>
+//@                    ref(cctpRoute(s.Forwarder)) != 0 && cast(cctpRoute(s.Forwarder), "*controller/forwarding.CCTPController").handler != nil
+//@   modifies out_n, out_kind, out_replace
+//@   ensures[C05] err == nil ==> out_n == old(out_n) + 1 && out_kind == 5 && out_replace.From == bech32(core.ModuleAddress) &&
+//@                  out_replace.OriginalMessage == msg.OriginalMessage && out_replace.OriginalAttestation == msg.OriginalAttestation &&
+//@                  out_replace.NewDestinationCaller == msg.NewDestinationCaller && out_replace.NewMintRecipient == msg.NewMintRecipient
+//@   ensures[C05] out_n <= old(out_n) + 1
